@@ -180,6 +180,35 @@ def physBuild (P : Input) : PG PN :=
   ⟨P.nodes.map .orig ++ P.reg.flatMap P.gadgetNodes,
    P.edges.filterMap P.rewire ++ P.reg.flatMap P.gadgetEdges⟩
 
+/-! #### the loop itself (a transcription of `_add_value_store` and of the `for` loop of `plan_with_value_stores`);
+    `Lemmas/PhysLoop.lean` proves that it builds `physBuild`, whatever the registry order -/
+
+/-- `_add_value_store(plan, orig r.1, registry_value, is_stale=…)` applied to the graph built so far: snapshot of the
+    out-edges of the node; store literal, read call; Barrier with an edge from every CURRENT predecessor of the node
+    (source) or write call taking the store literal and the node (otherwise); `write → read`; then every snapshot edge
+    is removed and re-added from the read node (argument keys) or from the write node / Barrier (plain dependencies,
+    only when out of date). -/
+def addValueStore (P : Input) (G : PG PN) (r : Nat × Bool) : PG PN :=
+  let node := PN.orig r.1
+  let w : PN := if r.2 then .barrier r.1 else .write r.1
+  let gad : List (Edge PN) :=
+    ⟨.storeLit r.1, .read r.1, .pos 0⟩ ::
+      (if P.isStale r.1 then
+        (if r.2 then (predsOf G node).map (fun p => ⟨p, .barrier r.1, Key.dep⟩)
+         else [⟨.storeLit r.1, .write r.1, .pos 0⟩, ⟨node, .write r.1, .pos 1⟩]) ++ [⟨w, .read r.1, .dep⟩]
+       else [])
+  let rew := (outEdges G node).filterMap (fun e =>
+    if e.key.isArg then some ⟨.read r.1, e.dst, e.key⟩
+    else if P.isStale r.1 then some ⟨w, e.dst, e.key⟩ else none)
+  ⟨G.nodes ++ P.gadgetNodes r, G.edges.filter (fun e => e.src != node) ++ gad ++ rew⟩
+
+/-- the logical plan as a physical graph: what the loop starts from -/
+def baseGraph (P : Input) : PG PN :=
+  ⟨P.nodes.map .orig, P.edges.map (fun e => ⟨.orig e.src, .orig e.dst, e.key⟩)⟩
+
+/-- `for node, registry_value in registry.mapping.items(): _add_value_store(…)` -/
+def planWithValueStores (P : Input) : PG PN := P.reg.foldl (addValueStore P) (baseGraph P)
+
 /-- `read_node_lookup.get(output_node, output_node)`. -/
 def physOut (P : Input) : Option PN :=
   P.out.map (fun o => if (P.regOf o).isSome then .read o else .orig o)
